@@ -25,7 +25,7 @@ func runC07(p *Program, r *Report) {
 	for _, m := range []struct {
 		r string
 		n int
-	}{{"C07.R1", 10}, {"C07.R2", 2}, {"C07.R3", 8}, {"C07.R4", 1}, {"C07.R5", 5}} {
+	}{{"C07.R1", 10}, {"C07.R2", 2}, {"C07.R3", 8}, {"C07.R4", 1}, {"C07.R5", 5}, {"C07.R6", 2}} {
 		r.Min(m.r, m.n)
 	}
 	checkAliasReset(p, r, "C07.R4")
@@ -44,6 +44,7 @@ func runC07(p *Program, r *Report) {
 	} else {
 		r.OK("C07.R2", "template.nameSpace#freeze-flag", "", "the freeze flag is the field of the name space that both execution gates set: "+ff.name)
 	}
+	checkFlagMonotone(p, r, ff, "C07.R6")
 	// checkCanParse: non-nil iff escaped, read under the lock
 	{
 		pe := newPathExplorer(p, ccp)
